@@ -14,7 +14,7 @@ RULE = (
     "decision by decision. evaluations = decisions verified; distinct_nontrivial = distinct (model, sampler kind, variable) cells in which "
     "BOTH an acceptance and a rejection were observed and alpha was recomputed from scratch"
 )
-REQUIRED = {"decisions": 3000, "alpha_recomputed": 2000, "accepted": 300, "rejected": 300, "sample_calls": 500,
+REQUIRED = {"cohorts_of_a_single_individual": 3, "decisions": 3000, "alpha_recomputed": 2000, "accepted": 300, "rejected": 300, "sample_calls": 500,
             "cells_gibbs": 3, "cells_fastgibbs": 3, "cells_metropolis-hastings": 3, "cells_ind": 3, "alpha_plus_inf_decisions": 5, "alpha_recomputed_mixture": 50, "sweeps_without_mstep": 10, "scales_rebound_between_uses": 8}
 ASSUMPTIONS = [
     "attachment = nodes nll_attach / nll_attach_ind, regularity = each latent variable's own prior node (nll_regul_<v>[_ind]); both re-evaluated from "
@@ -52,7 +52,10 @@ def run_shard(spec, ctx):
         kind_pop = KINDS[(spec["k"] + i) % 3]
         regime = ["normal", "huge", "tiny", "mixed", "badstart"][(spec["k"] // 3 + i) % 5]
         try:
-            model, ds, state0, df = gen.ready_state(rng, *g, n_ind=int(rng.integers(3, 9)) if regime != "badstart" else int(rng.integers(25, 40)))
+            single = regime != "badstart" and (spec["k"] + 2 * i) % 5 == 0 and g[0] not in ("joint", "mixture_logistic")
+            model, ds, state0, df = gen.ready_state(rng, *g, n_ind=(1 if single else int(rng.integers(3, 9))) if regime != "badstart" else int(rng.integers(25, 40)))
+            if ds.n_individuals == 1:
+                ctx.count("cohorts_of_a_single_individual")  # what personalising one patient is
             torch.manual_seed(int(rng.integers(1 << 30)))
             algo, state = make_algo(model, ds, rng, sampler_pop=kind_pop, n_iter=20)
         except Exception as e:
